@@ -114,7 +114,7 @@ for d in sorted(glob.glob(root + "/*/")):
         data = open(a, "rb").read()
         kind = os.path.basename(a).split("-")[0]
         p = d + "found/%s-fuzz-artifact-%s.json" % (sub, hashlib.sha1(data).hexdigest()[:16])
-        json.dump({"property": id, "subcheck": sub, "input_hex": data.hex(), "signature": "%s/abort/fuzz-%s-artifact" % (sub, kind), "detail": "libFuzzer artifact " + os.path.basename(a)}, open(p, "w"), indent=1)
+        json.dump({"property": id, "subcheck": sub, "tier": "thorough", "input_hex": data.hex(), "signature": "%s/abort/fuzz-%s-artifact" % (sub, kind), "detail": "libFuzzer artifact " + os.path.basename(a)}, open(p, "w"), indent=1)
     reproduced = []; not_reproduced = 0; known = set()
     for f in sorted(glob.glob(d + "found/*.json")):
         dest = "%s/replays/%s/%s" % (V, id, os.path.basename(f))
